@@ -166,8 +166,11 @@ class Interp:
             else:
                 self.block(st.orelse, env)
             return
-        if isinstance(st, ast.Assign) and len(st.targets) == 1:
-            self.bind(st.targets[0], self.ev(st.value, env), env)
+        if isinstance(st, ast.Assign):
+            # (`a = b = <value>`: one evaluation, bound to every target)
+            v = self.ev(st.value, env)
+            for t in st.targets:
+                self.bind(t, v, env)
             return
         if isinstance(st, ast.AugAssign) and isinstance(st.target, ast.Name) and isinstance(st.op, ast.Add) and st.target.id in env:
             a, b = env[st.target.id], self.ev(st.value, env)
